@@ -151,7 +151,7 @@ def _vote_trace(ctx, name, lines):
     path = os.path.join(sub.work, "chunk.ndjson")
     with open(path, "w") as f:
         f.writelines(lines)
-    ok, r, hw = sub.tlc_validate_trace("LastPointVoteTrace", "LastPointVoteTrace.cfg", path, timeout=2400)
+    ok, r, hw = sub.tlc_validate_trace("LastPointVoteTrace", "LastPointVoteTrace.cfg", path, timeout=6000)
     if not ok or r.distinct != len(lines) + 1:
         raise core.MachineryError("votes trace %s not consumed (hw=%s, %d states for %d events):\n%s" % (
             name, hw, r.distinct, len(lines), r.out[-3000:]))
@@ -181,9 +181,9 @@ def _opstr(e):
 def _votes_start(ctx, prefix, quick):
     """start TLC (LastPointVoteTrace) on the recorded votes traces, chunks side by side (they run while the
     other relations are judged)"""
-    ex = ThreadPoolExecutor(max_workers=4 if quick else 8)
+    ex = ThreadPoolExecutor(max_workers=5 if quick else 8)
     futs = []
-    for fam in ("f1", "f2", "rnd"):
+    for fam in ("f1", "f1late", "f2", "rnd"):
         for ci, lines in enumerate(_split_trace(prefix + "." + fam, 25000 if quick else 40000)):
             futs.append((fam, ci, lines, ex.submit(_vote_trace, ctx, "vt-%s-%d" % (fam, ci), lines)))
     ex.shutdown(wait=False)
@@ -240,7 +240,7 @@ def _votes_finish(ctx, futs, diverge):
             if cls.startswith("setlast:"):
                 key = "box:" + cls.split(":", 1)[1]
             elif cls.startswith("vote:") and pk(e["before"]) != pk(e["after"]):
-                key = cls + (";moved-to-embedded-voteproof" if pk(e["after"]) == pk(e["e"]) else ";moved-to-counted-voteproof")
+                key = cls + (";moved-to-embedded-voteproof" if pk(e["after"])[:4] == pk(e["e"])[:4] else ";moved-to-counted-voteproof")
             ctx.violation(key, "real Ballotbox (n=%d, threshold %s%%%s): after %s the call %s moves the position %s -> %s (%s)" % (
                 hs[0]["nn"], hs[0]["t10"] / 10, ", last node expelled" if hs[0]["ex"] else "",
                 " ; ".join(_opstr(x) for x in hs[1:-1]) or "nothing", _opstr(e), pstr(e["before"]), pstr(e["after"]), cls),
@@ -284,16 +284,16 @@ def run(ctx):
     vmaxh, vmaxr, vnum, vlen = (2, 1, 150, 30) if quick else (3, 2, 1500, 40)
     with ThreadPoolExecutor(max_workers=8) as ex:
         f_votes = ex.submit(lambda: ctx.vh(["C06", "votes", "--maxh", vmaxh, "--maxr", vmaxr, "--num", vnum, "--len", vlen,
-                                            "--out", vprefix], timeout=2400))
+                                            "--out", vprefix], timeout=6000))
         f_dump = ex.submit(job, "dump", lambda c: c.tlc_dump_steps("LastPoint", cfg, timeout=1500, workers=4))
         f_rel = ex.submit(lambda: ctx.vh(["C06", "relation", "--maxh", maxh, "--maxr", maxr, "--out", rel], timeout=1500))
         f_mc = ex.submit(job, "lvmc", lambda c: c.tlc("LastVoteproofs", mcfg, timeout=1500, workers=4))
         f_cand = ex.submit(job, "lvcand", lambda c: c.tlc("LastVoteproofs", "LastVoteproofs_cand.cfg", timeout=900,
                                                            allow_violation=True, workers=2))
-        f_simb = ex.submit(job, "simb", lambda c: c.tlc_simulate("LastPoint", "LastPoint_sim.cfg", num=nb, depth=30))
-        f_simv = ex.submit(job, "simv", lambda c: c.tlc_simulate("LastVoteproofs", "LastVoteproofs_sim.cfg", num=nb, depth=9))
+        f_simb = ex.submit(job, "simb", lambda c: c.tlc_simulate("LastPoint", "LastPoint_sim.cfg", num=nb, depth=30, timeout=3000))
+        f_simv = ex.submit(job, "simv", lambda c: c.tlc_simulate("LastVoteproofs", "LastVoteproofs_sim.cfg", num=nb, depth=9, timeout=3000))
         f_vmc = ex.submit(job, "lpvmc", lambda c: c.tlc("LastPointVote", "LastPointVote_mc_quick.cfg" if quick else
-                                                         "LastPointVote_mc_thorough.cfg", timeout=2400, workers=4))
+                                                         "LastPointVote_mc_thorough.cfg", timeout=6000, workers=4 if quick else 8))
         f_vcand = ex.submit(job, "lpvcand", lambda c: c.tlc("LastPointVote", "LastPointVote_cand.cfg", timeout=900,
                                                              allow_violation=True, workers=2))
         names = [("dump", f_dump), ("lvmc", f_mc), ("lvcand", f_cand), ("simb", f_simb), ("simv", f_simv),
